@@ -11,7 +11,7 @@ Definition frames_ok (w : world) : Prop :=
   (forall c, (length (s_data (w_csrc w c)) <= 512)%nat).
 Definition containers_ok (u : ust) : Prop :=
   NoDup (u_inputs u) /\ NoDup (u_outs u) /\
-  StronglySorted N.lt (u_clients u) /\ StronglySorted N.lt (u_sinks u).
+  StronglySorted N.lt (map fst (u_clients u)) /\ StronglySorted N.lt (u_sinks u).
 Definition inv (w : world) : Prop :=
   containers_ok (w_u w) /\ frames_ok w /\ (length (u_buf (w_u w)) <= 512)%nat.
 
@@ -63,6 +63,30 @@ Proof.
   rewrite Forall_forall in *. intros y Hy. apply filter_In in Hy as [Hy _]. auto.
 Qed.
 
+Lemma map_put_keys c v l : map fst (map_put c v l) = ord_add c (map fst l).
+Proof.
+  induction l as [|[x b] l IH]; cbn [map_put map fst ord_add]; [reflexivity|].
+  destruct (c <? x); [reflexivity|]. destruct (c =? x); cbn [map fst]; [reflexivity|]. rewrite IH. reflexivity.
+Qed.
+Lemma map_remove_keys c l : map fst (map_remove c l) = ord_remove c (map fst l).
+Proof.
+  unfold map_remove, ord_remove. induction l as [|[x b] l IH]; cbn [filter map fst]; [reflexivity|].
+  destruct (negb (x =? c)); cbn [map fst]; rewrite IH; reflexivity.
+Qed.
+Lemma clean_stale_keys_In y l : In y (map fst (clean_stale l)) -> In y (map fst l).
+Proof.
+  induction l as [|[x b] l IH]; cbn [clean_stale map fst In]; [tauto|].
+  destruct b; cbn [map fst In]; tauto.
+Qed.
+Lemma clean_stale_sorted l :
+  StronglySorted N.lt (map fst l) -> StronglySorted N.lt (map fst (clean_stale l)).
+Proof.
+  induction l as [|[x b] l IH]; cbn [clean_stale map fst]; intros H; [constructor|].
+  inversion H as [|? ? Hs Hf]; subst. destruct b; [auto|].
+  cbn [map fst]. constructor; [auto|]. rewrite Forall_forall in *. intros y Hy.
+  apply Hf. apply clean_stale_keys_In. exact Hy.
+Qed.
+
 Lemma dmx_set_len d : (length (dmx_set d) <= 512)%nat.
 Proof. unfold dmx_set, take. change (N.to_nat DMX_UNIVERSE_SIZE) with 512%nat. apply firstn_le_length. Qed.
 
@@ -106,11 +130,11 @@ Proof.
   - destruct (mem i (u_inputs (w_u w))); [|discriminate]. inversion H; subst.
     repeat split; assumption.
   - inversion H; subst. clear H. split.
-    + cbn [w_u set_clients]. repeat split; cbn; try assumption. apply ord_add_sorted. exact Hc.
+    + cbn [w_u set_clients]. repeat split; cbn; try assumption. rewrite map_put_keys. apply ord_add_sorted. exact Hc.
     + split; [|exact Hb]. split; [exact Hp|]. intros j. cbn [w_csrc]. unfold upd.
       destruct (j =? c); [|apply Hs]. cbn [s_data]. apply dmx_set_len.
   - inversion H; subst. clear H. split.
-    + cbn [with_u w_u set_clients]. repeat split; cbn; try assumption. apply ord_add_sorted. exact Hc.
+    + cbn [with_u w_u set_clients]. repeat split; cbn; try assumption. rewrite map_put_keys. apply ord_add_sorted. exact Hc.
     + split; [|exact Hb]. split; assumption.
 Qed.
 
@@ -121,16 +145,22 @@ Proof.
   { intros i q Hq. split; [repeat split; assumption|]. split; [|exact Hb]. split; [|exact Hs].
     intros j. cbn [with_port w_ports]. unfold upd. destruct (j =? i); [exact Hq|apply Hp]. }
   destruct o; cbn [admin_step]; try (repeat split; assumption);
-    try (apply Hport; cbn [p_src]; apply Hp).
-  - split; [|split; [split; assumption|exact Hb]]. repeat split; cbn; try assumption. apply vec_add_nodup; assumption.
-  - split; [|split; [split; assumption|exact Hb]]. repeat split; cbn; try assumption. apply vec_remove_nodup; assumption.
-  - split; [|split; [split; assumption|exact Hb]]. repeat split; cbn; try assumption. apply ord_add_sorted; assumption.
-  - split; [|split; [split; assumption|exact Hb]]. repeat split; cbn; try assumption. apply ord_remove_sorted; assumption.
-  - split; [|split; [split; assumption|exact Hb]]. repeat split; cbn; try assumption. apply vec_add_nodup; assumption.
-  - split; [|split; [split; assumption|exact Hb]]. repeat split; cbn; try assumption. apply vec_remove_nodup; assumption.
-  - split; [|split; [split; assumption|exact Hb]]. repeat split; cbn; try assumption. apply ord_add_sorted; assumption.
-  - split; [|split; [split; assumption|exact Hb]]. repeat split; cbn; try assumption. apply ord_remove_sorted; assumption.
-  - destruct (SOURCE_PRIORITY_MAX <? p); [repeat split; assumption|]. apply Hport. cbn [p_src]. apply Hp.
+    try (apply Hport; cbn [p_src]; apply Hp);
+    try (destruct (SOURCE_PRIORITY_MAX <? _); [repeat split; assumption|]; apply Hport; cbn [p_src]; apply Hp);
+    (split; [|split; [split; assumption|exact Hb]]); repeat split; cbn; try assumption;
+    rewrite ?map_put_keys, ?map_remove_keys;
+    first [apply vec_add_nodup|apply vec_remove_nodup|apply ord_add_sorted|apply ord_remove_sorted
+          |apply clean_stale_sorted]; assumption.
+Qed.
+
+Lemma step_none w o :
+  apply_update w o = None ->
+  (exists d, o = SetDMX d /\ step w o = set_dmx w d) \/ step w o = (admin_step w o, []).
+Proof. intros A. unfold step. rewrite A. destruct o; auto. left. eauto. Qed.
+Lemma set_dmx_inv w d : inv w -> inv (fst (set_dmx w d)).
+Proof.
+  intros (Hc & Hf & Hb). unfold set_dmx. destruct (len (dmx_set d) =? 0); cbn [fst]; [exact (conj Hc (conj Hf Hb))|].
+  split; [exact Hc|]. split; [exact Hf|]. cbn. apply dmx_set_len.
 Qed.
 
 Lemma step_inv w o : inv w -> inv (fst (step w o)).
@@ -146,7 +176,8 @@ Proof.
       * eapply expected_len; [|exact E]. intros e He. apply (sources_frames_ok _ Hf).
         eapply group_incl. exact He.
       * rewrite <- Eb1. exact Hb.
-  - unfold step. rewrite A. cbn [fst]. apply admin_step_inv. exact Hw.
+  - destruct (step_none _ _ A) as [(d & -> & E)|E]; rewrite E; [apply set_dmx_inv; exact Hw|].
+    cbn [fst]. apply admin_step_inv. exact Hw.
 Qed.
 
 Lemma inv_init : inv init_world.
@@ -230,7 +261,14 @@ Proof.
     + rewrite Ee. destruct (expected _ _ _); [|constructor].
       unfold hand_out. apply Forall_app. split; apply Forall_forall; intros e He;
         apply in_map_iff in He as (j & <- & _); exact Hg.
-  - unfold step. rewrite A. cbn [fst snd]. split; [apply admin_step_pinv; assumption|constructor].
+  - destruct (step_none _ _ A) as [(d & -> & E)|E]; rewrite E.
+    + pose proof Hw as (Hs & Hi & Hp & Hc & Hu). unfold set_dmx.
+      destruct (len (dmx_set d) =? 0); cbn [fst snd]; [split; [exact Hw|constructor]|].
+      split; [unfold pinv; cbn; repeat split; assumption|].
+      unfold fanout. cbn [set_merge u_buf u_prio u_outs u_sinks].
+      apply Forall_app. split; apply Forall_forall; intros e He;
+        apply in_map_iff in He as (j & <- & _); exact Hu.
+    + cbn [fst snd]. split; [apply admin_step_pinv; assumption|constructor].
 Qed.
 Lemma pinv_init : pinv init_world.
 Proof. unfold pinv. cbn. unfold SOURCE_PRIORITY_DEFAULT, SOURCE_PRIORITY_MIN. repeat split; intros; lia. Qed.
